@@ -3261,3 +3261,132 @@ def o_c13_docstrings_in_context(ctx):
 
 
 P.PROPS["C13"]["streams"].append(o_c13_docstrings_in_context)
+
+
+# ---------------------------------------------------------------- round 13
+def o_c11_long_id_runs(ctx):
+    """ids stay distinct and gap-free however many are drawn from one generator: thousands of ids through one stream of
+    large documents, and through the generator itself"""
+    impl = impl_mod()
+    from gherkin.stream.gherkin_events import GherkinEvents
+    from gherkin.stream.id_generator import IdGenerator
+
+    def big(k, rows):
+        body = "".join("  @t%d\n  Scenario Outline: o%d\n    Given <a> and <b>\n      | x | y |\n    Examples:\n      | a | b |\n%s" % (i, i, "".join("      | %d | %d |\n" % (j, i) for j in range(rows))) for i in range(k))
+        return "@f\nFeature: big\n  Background:\n    Given b\n" + body
+    items = [("generator", S.n_for(5000, 200000)), ("stream", (6, 12, 4)), ("stream", (3, 40, S.n_for(3, 30)))]
+
+    def check(it):
+        kind, arg = it
+        if kind == "generator":
+            g = IdGenerator()
+            for i in range(arg):
+                x = g.get_next_id()
+                if x != str(i):
+                    return {"what": "the %d-th id drawn from a fresh generator is %r" % (i + 1, x)}
+            return None
+        k, rows, ndocs = arg
+        ge = GherkinEvents(GherkinEvents.Options(print_source=False, print_ast=True, print_pickles=True))
+        ids = []
+        for d in range(ndocs):
+            for env in ge.enum({"source": {"uri": "u%d" % d, "data": big(k, rows), "mediaType": "text/x.cucumber.gherkin+plain"}}):
+                if "parseError" in env:
+                    return {"what": "a well-formed large document is rejected", "error": env["parseError"]["message"][:100]}
+                P.walk(env, lambda p_, key, v: ids.append(v) if key == "id" else None)
+        n = len(ids)
+        if len(set(ids)) != n:
+            seen, dup = set(), None
+            for x in ids:
+                if x in seen:
+                    dup = x
+                    break
+                seen.add(x)
+            return {"what": "id %r occurs twice among the %d ids of one stream" % (dup, n)}
+        if set(ids) != {str(i) for i in range(n)}:
+            missing = sorted({str(i) for i in range(n)} - set(ids), key=int)[:3]
+            return {"what": "the %d ids of a stream of accepted documents are not 0..%d (missing %r)" % (n, n - 1, missing)}
+        return None
+    return oracle("long-id-runs", items, check, describe=lambda it: repr(it))
+
+
+for _pid in ("C11", "C15", "C17"):
+    P.PROPS[_pid]["streams"].append(o_c11_long_id_runs)
+
+
+LINE_BREAKERS = ["\x0b", "\x0c", "\x1c", "\x1d", "\x1e", "\x85", "\u2028", "\u2029", "\r"]   # str.splitlines breaks here; a Gherkin line ends at LF only
+
+
+def line_breaker_sources():
+    """documents with one of the characters at which str.splitlines (but not readline) breaks, inside a name, a
+    description, a step text, a cell, a doc-string line, a tag line's comment, a comment -- one position at a time and all at once"""
+    srcs = []
+    for ch in LINE_BREAKERS:
+        mid = "a" + ch + "b"
+        parts = {"name": "Feature: f\n  Scenario Outline: n %s <x>\n    Given g\n    Examples:\n      | x |\n      | 1 |\n" % mid,
+                 "desc": "Feature: f\n  d %s\n  Scenario: s\n    Given g\n" % mid,
+                 "step": "Feature: f\n  Background:\n    Given b %s\n  Scenario: s\n    When w %s\n" % (mid, mid),
+                 "cell": "Feature: f\n  Scenario Outline: o\n    Given <x>\n      | %s | <x> |\n    Examples:\n      | x |\n      | %s |\n" % (mid, mid),
+                 "doc": "Feature: f\n  Background:\n    Given b\n      \"\"\"\n      %s\n      \"\"\"\n  Rule: r\n    Background:\n      Given rb\n        ```\n        %s@leak\n        ```\n    Scenario: s\n      Given g\n" % (mid, mid),
+                 "tagtail": "Feature: f\n  Scenario: one\n    Given note%s@leak\n  @t\n  Scenario: two\n    Given h\n" % ch,
+                 "comment": "# c %s\nFeature: f\n  # d %s Scenario: x\n  Scenario: s\n    Given g\n" % (mid, ch)}
+        srcs += list(parts.values())
+        srcs.append("# c %s\n@t\nFeature: f %s\n  d %s\n  Background:\n    Given b %s\n      | %s |\n  Scenario Outline: o %s\n    When <x> %s\n      \"\"\"\n      %s <x>\n      \"\"\"\n    Examples:\n      | x |\n      | %s |\n"
+                    % (mid, mid, mid, mid, mid, mid, mid, mid, mid))
+    return srcs
+
+
+def line_breaker_ast(name, proj):
+    def run(ctx):
+        return e2e("line-breakers/" + name, line_breaker_sources(), proj, modes=(False, True), nontrivial=lambda q, x: q[1][2][:60], exhaustive=True)
+    run.__name__ = "line_breakers_" + name
+    run.__doc__ = "a line ends at a line feed only: VT, FF, FS, GS, RS, NEL, LS, PS and a lone CR are ordinary characters of the line (" + name + ")"
+    return run
+
+
+def line_breaker_pickles(pid, pj):
+    def run(ctx):
+        reqs = [("events", [False, False, True, False, [["u.feature", s]]]) for s in line_breaker_sources()]
+
+        def pr(r_, req=None):
+            if "envelopes" not in r_:
+                return {"outcome": P.outcome(r_)}
+            return [pj(e["pickle"]) if "pickle" in e else {"parseError": e["parseError"]["message"]} for e in r_["envelopes"] if "pickle" in e or "parseError" in e]
+        return differential("line-breakers-pickles/" + pid, reqs, proj=pr, nontrivial=lambda q, x: canon(q[1])[:100], classify=lambda q, x: "doc", exhaustive=True)
+    run.__name__ = "line_breakers_pickles_" + pid
+    run.__doc__ = "pickles of documents with VT, FF, FS, GS, RS, NEL, LS, PS or a lone CR inside names, steps, cells and doc strings"
+    return run
+
+
+for _pid, _pj in (("C02", lambda x, req=None: outcome(x)), ("C03", P.p_ast_text), ("C04", P.p_locations), ("C12", P.p_cells), ("C13", P.p_docstrings), ("C18", P.p_whole)):
+    P.PROPS[_pid]["streams"].append(line_breaker_ast(_pid, _pj))
+for _pid, _pj in (("C06", pk_sources), ("C07", pk_steps), ("C08", pk_tags), ("C09", pk_interp), ("C10", pk_types), ("C11", pk_ids)):
+    P.PROPS[_pid]["streams"].append(line_breaker_pickles(_pid, _pj))
+
+
+def c13_shared_lines(ctx):
+    """a line is unescaped according to the doc string it stands in, not to where the same text was seen before: several
+    doc strings of different delimiters in one document (and a description) sharing identical lines that hold an
+    escaped delimiter of either kind"""
+    shared = ['\\"\\"\\"', "\\`\\`\\`", 'x \\"\\"\\" y \\`\\`\\` z', "plain", ""]
+    srcs = []
+    for ds in itertools.product(('"""', "```"), repeat=3):
+        for ind in ("", "      "):
+            body = "".join(ind + ln + "\n" for ln in shared)
+            srcs.append("Feature: f\n  Background:\n    Given b\n%s%s\n%s%s%s\n  Scenario: s\n%s    Given g\n%s%s\n%s%s%s\n  Scenario Outline: o\n    Given <a>\n%s%s\n%s%s%s\n    Examples:\n      | a |\n      | 1 |\n"
+                        % (ind, ds[0], body, ind, ds[0], "".join("    " + ln + "\n" for ln in shared if ln), ind, ds[1], body, ind, ds[1], ind, ds[2], body, ind, ds[2]))
+    reqs = [("parse", [False, "en", s]) for s in srcs]
+    reqs += [("parse_history", ["en", [[False, a], [False, b]]]) for a in srcs[:4] for b in srcs[-4:]]
+
+    def pj(x, req=None):
+        if isinstance(x, list):
+            return [P.p_docstrings(y) for y in x]
+        return P.p_docstrings(x)
+    return differential("shared-lines-in-doc-strings", reqs, proj=pj, nontrivial=lambda q, x: canon(q[1])[:120], classify=lambda q, x: q[0], exhaustive=True)
+
+
+P.PROPS["C13"]["streams"].append(c13_shared_lines)
+P.PROPS["C03"]["streams"].append(c13_shared_lines)
+
+# the same malformed tag line at different line numbers of different documents (whatever object holds a line must not
+# remember where the same text stood before)
+ABORTING_DOCS += ["@smoke test\nFeature: f\n  Scenario: s\n", "Feature: f\n\n\n@smoke test\n  Scenario: s\n    Given g\n", "# c\n# d\nFeature: f\n  Scenario: s\n    Given g\n@smoke test\n"]
